@@ -188,6 +188,9 @@ pub enum QOp {
     NoMore,
     DropRow,
     DropResult,
+    /// first op of a program answering an EXECUTE: how the callback consumes the parameter iterator
+    /// (0 = drops the parser unused, 1 = `.count()`, 2 = takes only the first item)
+    Params(u8),
     /// the callback returns the shim's own error here, as `?` would: whatever writers are still held go
     /// out of scope (their destructors may write)
     Bail(u64),
@@ -210,6 +213,7 @@ impl QOp {
             QOp::DropRow => "drop_row_writer",
             QOp::DropResult => "drop_result_writer",
             QOp::Bail(_) => "return_err",
+            QOp::Params(_) => "params",
         }
     }
 }
@@ -319,6 +323,9 @@ pub struct Cb {
     pub script: Option<usize>,
     /// script kind did not fit this callback (harness-side mismatch; judged by the monitor)
     pub mismatch: bool,
+    /// on_execute did not walk the whole parameter list (the script said so): "ignored" (the parser
+    /// was dropped unused), "counted" (`.count()`), "first" (only the first item was taken)
+    pub params_consumed: Option<&'static str>,
 }
 
 #[derive(Default)]
@@ -372,7 +379,7 @@ impl ScriptShim {
     fn begin(&mut self, kind: CbKind) -> usize {
         let ev = self.tick();
         let mut l = self.log.borrow_mut();
-        l.cbs.push(Cb { ev_start: ev, ev_end: 0, kind, results: vec![], script: None, mismatch: false });
+        l.cbs.push(Cb { ev_start: ev, ev_end: 0, kind, results: vec![], script: None, mismatch: false, params_consumed: None });
         l.cbs.len() - 1
     }
     fn end(&mut self, i: usize) {
@@ -544,6 +551,7 @@ impl ScriptShim {
                     drop(qw.take());
                     self.res(i, name, &Ok(()));
                 }
+                QOp::Params(_) => {}
                 QOp::Bail(t) => {
                     self.res(i, name, &Ok(()));
                     drop(rw.take());
@@ -679,8 +687,33 @@ impl<W: Read + Write> MysqlShim<W> for ScriptShim {
         let conv = self.conv;
         // iterate like any backend would; a panic in the iterator propagates (it is the server's)
         let mut obs = Vec::new();
-        for p in params {
-            obs.push(observe_param(p, conv));
+        let mode = match self.scripts.front() {
+            Some((_, Script::Q(prog))) => match prog.ops.first() {
+                Some(QOp::Params(m)) => Some(*m),
+                _ => None,
+            },
+            _ => None,
+        };
+        match mode {
+            None => {
+                for p in params {
+                    obs.push(observe_param(p, conv));
+                }
+            }
+            Some(0) => {
+                drop(params);
+                self.log.borrow_mut().cbs[i].params_consumed = Some("ignored");
+            }
+            Some(1) => {
+                let _n = params.into_iter().count();
+                self.log.borrow_mut().cbs[i].params_consumed = Some("counted");
+            }
+            Some(_) => {
+                if let Some(p) = params.into_iter().next() {
+                    obs.push(observe_param(p, conv));
+                }
+                self.log.borrow_mut().cbs[i].params_consumed = Some("first");
+            }
         }
         if let CbKind::Execute { params, .. } = &mut self.log.borrow_mut().cbs[i].kind {
             *params = obs;
